@@ -193,6 +193,38 @@ func c17Hash(t *rapid.T, ev *evProp, gi *GroupInfo) {
 	}
 	markVT(gi, p)
 	c17Member(t, ev, gi, p, "Hash", ctx)
+	// the receiver's history does not matter: a point of this group that was cloned, decoded,
+	// computed or is itself a hash result hashes like a fresh one (where the API has no explicit tag,
+	// the tag is the group's)
+	{
+		recv := genPoint(t, gi, "recv")
+		var q kyber.Point
+		pn := safely(func() {
+			switch h := recv.P.(type) {
+			case interface {
+				Hash2(msg, dst []byte) kyber.Point
+			}:
+				if dst != nil {
+					q = h.Hash2(append([]byte(nil), msg...), append([]byte(nil), dst...))
+				} else {
+					q = recv.P.(kyber.HashablePoint).Hash(append([]byte(nil), msg...))
+				}
+			case interface {
+				Hash(m []byte, dst string) kyber.Point
+			}:
+				q = h.Hash(append([]byte(nil), msg...), string(dst))
+			case kyber.HashablePoint:
+				q = h.Hash(append([]byte(nil), msg...))
+			}
+		})
+		if pn != "" {
+			violationOrKnown(t, ev, key("Hash-panic"), "Hash on a used receiver (%s) panicked: %s\n%s", recv.Desc, pn, ctx)
+			return
+		}
+		if q != nil && !q.Equal(p) {
+			violationOrKnown(t, ev, key("Hash-used-receiver"), "Hash with the used receiver %s = %s, with a fresh receiver %s\n%s", recv.Desc, q, p, ctx)
+		}
+	}
 	enc := mustMarshal(t, p)
 	if e2 := mustMarshal(t, gi.Hash(append([]byte(nil), msg...), append([]byte(nil), dst...))); !bytes.Equal(enc, e2) {
 		violationOrKnown(t, ev, key("Hash-deterministic"), "two evaluations differ: %x vs %x\n%s", enc, e2, ctx)
